@@ -281,6 +281,28 @@ def opaque_sampler(draw):
 # ---------------------------------------------------------------------------------------------------------------------
 # snapshots for frame conditions
 
+# declared (observable) state of the repository's core data classes: frame conditions compare THIS state. Attributes outside it (e.g. a memo a later version of the
+# code may add) are not part of the observable value: whether such hidden state is used correctly is decided by the history contracts (results on a used object ==
+# results on a fresh one), not by flagging every new attribute as "input changed"
+DECLARED_FIELDS = {
+    "Circuit": ("name", "_gates", "_qubits_simulated", "_qubit_indices", "_gate_counts", "_n_qubit_gate_counts", "_variational_gates", "_probabilities",
+                "_cmeasure_control", "_applied_gates"),
+    "Gate": ("name", "target", "control", "parameter", "is_variational"),
+    "Histogram": ("counts",),
+}
+
+
+def _declared(d):
+    """restrict an attribute dictionary to the declared fields when it is the __dict__ of a Circuit / Gate / Histogram"""
+    if "_gates" in d and "_qubit_indices" in d:
+        f = DECLARED_FIELDS["Circuit"]
+    elif "target" in d and "control" in d and "is_variational" in d:
+        f = DECLARED_FIELDS["Gate"]
+    else:
+        return d
+    return {k: v for k, v in d.items() if k in f}
+
+
 def snapshot(x, depth=6):
     """structural, hashable-ish snapshot of an object graph (for 'unchanged' frame conditions)"""
     if isinstance(x, Poly):
@@ -300,6 +322,8 @@ def snapshot(x, depth=6):
     if isinstance(x, (set, frozenset)):
         return ("set",) + tuple(sorted((snapshot(e, depth - 1) for e in x), key=repr))
     if isinstance(x, dict):
+        if x and all(isinstance(k, str) for k in x):
+            x = _declared(x)
         items = tuple((snapshot(k, depth - 1), snapshot(v, depth - 1)) for k, v in x.items())
         d = getattr(x, "__dict__", None)
         if d:
@@ -307,7 +331,9 @@ def snapshot(x, depth=6):
         return ("dict", items)
     d = getattr(x, "__dict__", None)
     if d is not None:
-        return (type(x).__name__, snapshot(dict(d), depth - 1))
+        f = DECLARED_FIELDS.get(type(x).__name__)
+        d = {k: v for k, v in d.items() if k in f} if f and all(k in d for k in f[:2]) else dict(d)
+        return (type(x).__name__, snapshot(d, depth - 1))
     return ("obj", repr(x))
 
 
